@@ -1,0 +1,72 @@
+//go:build verif
+
+package verifier
+
+// Read-only accessors on Graph internals for the /verif conformance harnesses
+// (properties C10, C11, C12). Compiled only with the build tag "verif"; nothing
+// here changes the behaviour of the package.
+
+// VerifGraphEdgeIssuer returns the issuer node recorded on the edge (nil when
+// the edge is dangling).
+func VerifGraphEdgeIssuer(e *GraphEdge) *GraphNode { return e.issuer }
+
+// VerifGraphEdgeChild returns the child (subject) node of the edge.
+func VerifGraphEdgeChild(e *GraphEdge) *GraphNode { return e.child }
+
+// VerifGraphEdgeRoot returns the root flag of the edge.
+func VerifGraphEdgeRoot(e *GraphEdge) bool { return e.root }
+
+// VerifGraphNodeParents returns, per issuer-node fingerprint, the edges recorded
+// in the node's parentsBySubjectAndKey map (certificates issued to this node).
+func VerifGraphNodeParents(n *GraphNode) map[string][]*GraphEdge {
+	out := make(map[string][]*GraphEdge, len(n.parentsBySubjectAndKey))
+	for k, es := range n.parentsBySubjectAndKey {
+		out[string(k)] = es.Edges()
+	}
+	return out
+}
+
+// VerifGraphNodeChildren returns, per child-node fingerprint, the edges recorded
+// in the node's childrenBySubjectAndKey map (certificates issued by this node).
+func VerifGraphNodeChildren(n *GraphNode) map[string][]*GraphEdge {
+	out := make(map[string][]*GraphEdge, len(n.childrenBySubjectAndKey))
+	for k, es := range n.childrenBySubjectAndKey {
+		out[string(k)] = es.Edges()
+	}
+	return out
+}
+
+// VerifGraphMissingIssuer returns the missingIssuerNode index: raw issuer name ->
+// edges waiting for an issuer node.
+func VerifGraphMissingIssuer(g *Graph) map[string][]*GraphEdge {
+	out := make(map[string][]*GraphEdge, len(g.missingIssuerNode))
+	for k, es := range g.missingIssuerNode {
+		out[k] = es.Edges()
+	}
+	return out
+}
+
+// VerifGraphNodesBySubject returns the nodesBySubject index: raw subject -> nodes
+// in creation order.
+func VerifGraphNodesBySubject(g *Graph) map[string][]*GraphNode {
+	out := make(map[string][]*GraphNode, len(g.nodesBySubject))
+	for k, ns := range g.nodesBySubject {
+		c := make([]*GraphNode, len(ns))
+		copy(c, ns)
+		out[k] = c
+	}
+	return out
+}
+
+// VerifGraphNodeIndex returns the keys of the nodesBySubjectAndKey index together
+// with the node each key maps to.
+func VerifGraphNodeIndex(g *Graph) map[string]*GraphNode {
+	out := make(map[string]*GraphNode, len(g.nodesBySubjectAndKey))
+	for k, n := range g.nodesBySubjectAndKey {
+		out[string(k)] = n
+	}
+	return out
+}
+
+// VerifGraphMaxChainLen is the walker's depth limit constant.
+const VerifGraphMaxChainLen = maxIntermediateCount
